@@ -31,6 +31,7 @@ type Contract struct {
 	Requires []*Clause
 	Ensures  []*Clause
 	Defines  []*Clause // definitional ghost links: assumed at call sites, not checked in the body
+	Valid    []*Clause // validity of the receiver/inputs (object invariant): assumed on entry, not demanded from callers, reported as an assumption
 	LoopInv  map[int][]*Clause
 	LoopDec  map[int]*Clause
 	LoopMod  map[int][]string
@@ -378,6 +379,14 @@ func (cs *ContractSet) parseFile(path, pkg string) error {
 			if rest != "nothing" {
 				cur.Assigns = append(cur.Assigns, splitList(rest)...)
 			}
+		case "valid":
+			if cur == nil {
+				return fail("valid outside func")
+			}
+			c, _ := mkClause(rest)
+			lastClause = c
+			pending = append(pending, c)
+			cur.Valid = append(cur.Valid, c)
 		case "requires", "ensures", "defines":
 			c, _ := mkClause(rest)
 			lastClause = c
